@@ -66,6 +66,10 @@ pub struct Opts {
     pub karorder: bool,
     pub ansi: bool,
     pub smart: bool,
+    /// order in which the option setters are called when the Config is built: false = as
+    /// listed in riti.h (English ... ANSI, smart quote); true = reversed (ANSI before English).
+    /// A front-end may call them in any order; the result must not depend on it.
+    pub reversed_setters: bool,
 }
 
 impl Opts {
@@ -85,6 +89,7 @@ impl Opts {
             karorder: false,
             ansi: false,
             smart: true,
+            reversed_setters: false,
         }
     }
     pub fn fixed(layout: &str, db: &str, xdg: &str) -> Opts {
@@ -103,6 +108,7 @@ impl Opts {
             karorder: false,
             ansi: false,
             smart: true,
+            reversed_setters: false,
         }
     }
     pub fn is_phonetic(&self) -> bool {
@@ -138,7 +144,8 @@ impl Opts {
             "layout": self.layout, "db": self.db, "xdg": self.xdg,
             "english": self.english, "psugg": self.psugg, "fsugg": self.fsugg,
             "vowel": self.vowel, "chandra": self.chandra, "kar": self.kar, "reph": self.reph,
-            "numpad": self.numpad, "karorder": self.karorder, "ansi": self.ansi, "smart": self.smart
+            "numpad": self.numpad, "karorder": self.karorder, "ansi": self.ansi, "smart": self.smart,
+            "reversed_setters": self.reversed_setters
         })
     }
     pub fn from_json(v: &Value) -> Opts {
@@ -159,6 +166,7 @@ impl Opts {
             karorder: b("karorder"),
             ansi: b("ansi"),
             smart: b("smart"),
+            reversed_setters: b("reversed_setters"),
         }
     }
     /// Short label of the boolean options for evidence/feature strings.
@@ -214,17 +222,28 @@ impl Opts {
                     self.db
                 );
             }
-            riti_config_set_suggestion_include_english(ptr, self.english);
-            riti_config_set_phonetic_suggestion(ptr, self.psugg);
-            riti_config_set_fixed_suggestion(ptr, self.fsugg);
-            riti_config_set_fixed_auto_vowel(ptr, self.vowel);
-            riti_config_set_fixed_auto_chandra(ptr, self.chandra);
-            riti_config_set_fixed_traditional_kar(ptr, self.kar);
-            riti_config_set_fixed_old_reph(ptr, self.reph);
-            riti_config_set_fixed_numpad(ptr, self.numpad);
-            riti_config_set_fixed_old_kar_order(ptr, self.karorder);
-            riti_config_set_ansi_encoding(ptr, self.ansi);
-            riti_config_set_smart_quote(ptr, self.smart);
+            let setters: [&dyn Fn(); 11] = [
+                &|| riti_config_set_suggestion_include_english(ptr, self.english),
+                &|| riti_config_set_phonetic_suggestion(ptr, self.psugg),
+                &|| riti_config_set_fixed_suggestion(ptr, self.fsugg),
+                &|| riti_config_set_fixed_auto_vowel(ptr, self.vowel),
+                &|| riti_config_set_fixed_auto_chandra(ptr, self.chandra),
+                &|| riti_config_set_fixed_traditional_kar(ptr, self.kar),
+                &|| riti_config_set_fixed_old_reph(ptr, self.reph),
+                &|| riti_config_set_fixed_numpad(ptr, self.numpad),
+                &|| riti_config_set_fixed_old_kar_order(ptr, self.karorder),
+                &|| riti_config_set_ansi_encoding(ptr, self.ansi),
+                &|| riti_config_set_smart_quote(ptr, self.smart),
+            ];
+            if self.reversed_setters {
+                for f in setters.iter().rev() {
+                    f();
+                }
+            } else {
+                for f in setters.iter() {
+                    f();
+                }
+            }
             let cfg = (*ptr).clone();
             riti_config_free(ptr);
             cfg
